@@ -144,20 +144,26 @@ theorem C14_bounds (libc : Libc) (shw : Obj → Out → Out × Outcome)
 theorem C14_show_formats_wf : ∀ f ∈ showNow.formats, (parseFmt cfgNow.conv f).isSome = true := by
   decide
 
+/-- **`Type_Show` as it is in the source** (fix 0046a69): `return print_to(output, pos, "%s", self);` — a position like every
+    other show, not the OLD `return format_to(output, pos, "%s", Type_Builtin_Name(self));` (a length).  Read from src/Type.c. -/
+theorem C14_type_show_returns_position : showNow.typeOff = false := by
+  decide
+
 /-- the facts about the scanner configuration and the show formats of the source that the proofs about `show` use: `%` ends
-    no specification, `%s` fetches `c_str`, `%p` the pointer, all show formats are well-formed, and the format of `show_to`
-    for a type without Show is literal `%s` literal `%p` literal -/
+    no specification, `%s` fetches `c_str`, `%p` the pointer, all show formats are well-formed, the format of `show_to`
+    for a type without Show is literal `%s` literal `%p` literal, and `Type_Show` returns a position -/
 theorem C14_show_facts : ShowFacts cfgNow showNow where
   hpct := C14_scan_set.1
   hfs := C14_dispatch_table.2.2.2.1
   hfp := C14_dispatch_table.2.2.2.2.1
   wf := C14_show_formats_wf
   dflt := ⟨"<'".toList, "' At 0x".toList, ">".toList, by decide⟩
+  typeNow := C14_type_show_returns_position
 
 /-- **C14_bounds with the built-in Show instances**: Int, Float, String, Array, Tuple, List, Table, Tree, Range, Slice, Box,
-    NULL, objects without a Show instance (nested to any depth, any recursion fuel) never make `print_to_with` leave its
-    buffers or run into undefined behaviour — provided no argument (and nothing its `show` reaches) is the destination
-    itself or a Type object (`plainArgs`, decidable; the excluded region: `C14_alias_refuted`). -/
+    NULL, objects without a Show instance, Type objects (nested to any depth, any recursion fuel) never make `print_to_with`
+    leave its buffers or run into undefined behaviour — provided no argument (and nothing its `show` reaches) is the
+    destination itself (`plainArgs`, decidable; the excluded region: `C14_alias_refuted`). -/
 theorem C14_bounds_builtin (libc : Libc) (d : Nat)
     (segs : List Seg) (hwf : wfSegs cfgNow.conv segs = true) (args : List Obj) (hpl : plainArgs d args = true) (o : Out) :
     let r := printTo cfgNow (primNow libc) showNow d (render segs) args o
@@ -197,9 +203,9 @@ theorem C14_position (libc : Libc) (shw : Obj → Out → Out × Outcome)
   · exact emitAll_str_guarded (primNow libc) hg cs ⟨sink, start, []⟩ v hv hle
 
 /-- **C14_position for the built-in types**: the same with `show` = the model of Int_Show / Float_Show / String_Show /
-    Array_Show / Tuple_Show / List_Show / Table_Show / Tree_Show / Range_Show / Slice_Show / Box_Show / `show_to` (any
-    recursion fuel), for arguments that neither are nor reach the destination itself or a Type object (`plainArgs`; the
-    excluded region: `C14_alias_refuted`, `C14_type_show_position_refuted`). -/
+    Array_Show / Tuple_Show / List_Show / Table_Show / Tree_Show / Range_Show / Slice_Show / Box_Show / Type_Show / `show_to`
+    (any recursion fuel), for arguments that neither are nor reach the destination itself (`plainArgs`; the excluded region:
+    `C14_alias_refuted`).  Type objects are covered since fix 0046a69 (before it: `C14_type_show_old_refuted`). -/
 theorem C14_position_builtin (libc : Libc) (d : Nat) (fmt : Str) (args : List Obj) (hpl : plainArgs d args = true) :
     ∃ (cs : List Call) (oc : Outcome), ∀ (sink : Sink) (start : Nat),
       let prim := primNow libc
@@ -384,7 +390,8 @@ theorem C14_show_formats_more :
     * a Slice: the opening, each item's own show, `, ` between two, `]>`;
     * a Box: `<'Box' at 0x` address ` (` the show of what it holds `)>`;
     * NULL: the literal `<NULL>`;
-    * an object of a type without Show: `<'` the type's name `' At 0x` address `>`.
+    * an object of a type without Show: `<'` the type's name `' At 0x` address `>`;
+    * a Type object: one `%s` call with the type's name (`Type_Show` is `print_to(output, pos, "%s", self)`, fix 0046a69).
     Each element's show text appears exactly once, in order (`showPairsSpec`, `showIntsSpec`, `showItemsSpec`). -/
 theorem C14_show_more (prim : Prim) (d : Nat) (ps : List (Obj × Obj)) (ns : List Int) (items : List Obj) (x : Obj)
     (t : Str) (o : Out) :
@@ -408,7 +415,8 @@ theorem C14_show_more (prim : Prim) (d : Nat) (ps : List (Obj × Obj)) (ns : Lis
     showD cfgNow prim showNow (d + 1) .null o = lit showNow.nullFmt o ∧
     showD cfgNow prim showNow (d + 1) (.other t) o =
       andThen (lit "<'".toList) (andThen (fun o => o.call prim ['%', 's'] (.cstr t))
-        (andThen (lit "' At 0x".toList) (andThen ptr (lit ">".toList)))) o := by
+        (andThen (lit "' At 0x".toList) (andThen ptr (lit ">".toList)))) o ∧
+    showD cfgNow prim showNow (d + 1) (.type t) o = o.call prim ['%', 's'] (.cstr t) := by
   have hp := C14_scan_set.1
   have hd := C14_scan_set.2.1 '$' (by decide)
   have hf := C14_dispatch_table.2.2.2.2.2
@@ -418,7 +426,7 @@ theorem C14_show_more (prim : Prim) (d : Nat) (ps : List (Obj × Obj)) (ns : Lis
   obtain ⟨t1, t2, t3, t4, r1, r2, r3, r4, g1, g2, g3, g4, s1, s2, s3, b1, n1, d1⟩ := C14_show_formats_more
   refine ⟨showD_table cfgNow prim showNow hp hf hfp _ _ _ t1 t2 t3 t4 d ps o,
     showD_tree cfgNow prim showNow hp hf hfp _ _ _ r1 r2 r3 r4 d ps o, ?_,
-    showD_slice cfgNow prim showNow hp hd hf hfp _ _ s1 s2 s3 d items o, ?_, ?_, ?_⟩
+    showD_slice cfgNow prim showNow hp hd hf hfp _ _ s1 s2 s3 d items o, ?_, ?_, ?_, ?_⟩
   · have := showD_range cfgNow prim showNow hp hfp [] 'i' hfi _ _ g1 g2 g3 g4 d ns o
     have hi : showNow.rngItem = ['%', 'i'] := by decide
     rw [hi] at this
@@ -429,6 +437,8 @@ theorem C14_show_more (prim : Prim) (d : Nat) (ps : List (Obj × Obj)) (ns : Lis
     exact print_lit cfgNow prim _ hp _ n1 [] o
   · simp only [showD]
     exact print_default cfgNow prim _ hp hfs hfp _ _ _ _ d1 t (.other t) o
+  · simp only [showD, C14_type_show_returns_position, Bool.false_eq_true, if_false]
+    exact print_type cfgNow prim _ hp hfs _ (by decide) t o
 
 /-! ## known finding F29, malformed tails, non-vacuity -/
 
@@ -455,15 +465,35 @@ theorem C14_alias_refuted :
     (printTo cfgNow primTest showNow 4 ['%', '$'] [.sink] ⟨.file [], 0, []⟩).out.sink = .file "<'File' At 0xp>".toList := by
   decide
 
-/-- **Type_Show returns a length, not a position (known finding KF-C14-type-show).** `print_to(s, 5, "[%$]", Int)` on a
-    String holding "hello": `Type_Show` is `return format_to(output, pos, "%s", name)`, so after `[Int` was written at 5…8
-    the position becomes 3, the closing `]` lands at index 3, the String is `hel]` and 4 is returned — not
-    `hello[Int]` / 10.  (What the real code does, too.)  `plainArgs` excludes Type objects for this reason. -/
-theorem C14_type_show_position_refuted :
-    let r := printTo cfgNow primTest showNow 4 ['[', '%', '$', ']'] [.type ['I', 'n', 't']] ⟨.str "hello".toList, 5, []⟩
-    r.oc = .ok ∧ r.out.pos = 4 ∧ r.out.sink = .str "hel]".toList ∧
-    5 + (textOf primTest r.out.calls).length = 10 ∧ plainArgs 4 [.type ['I', 'n', 't']] = false ∧
-    showNow.typeOff = true := by
+/-- **Type objects at any position (was known finding KF-C14-type-show, fixed by 0046a69).**  `%$` on a Type object advances
+    the position by the length of what libc wrote for the one call `%s` with the type's name, whatever the start position
+    and the sink: with the code as it is now `print_to_with` continues where the name ended.  (General statement; the
+    witness is in `C14_type_show_old_refuted`.) -/
+theorem C14_type_show_position (prim : Prim) (d : Nat) (n : Str) (o : Out) :
+    let r := showD cfgNow prim showNow (d + 1) (.type n) o
+    r = o.call prim ['%', 's'] (.cstr n) ∧ r.1.calls = o.calls ++ [⟨['%', 's'], .cstr n⟩] ∧
+    r.1.pos = o.pos + (prim.out ['%', 's'] (.cstr n)).length := by
+  have h := (C14_show_more prim d [] [] [] .null n o).2.2.2.2.2.2.2
+  simp only [h]
+  refine ⟨trivial, ?_, ?_⟩
+  · simp only [Out.call, Out.formatTo]; split <;> rfl
+  · simp only [Out.call, Out.formatTo, Prim.out]; split <;> simp
+
+/-- **The OLD `Type_Show` (before 0046a69) on the same witness** (corpus/fmt_fixed_type_show.ops: `print_to(s, 5, "[%$]", Int)` on
+    a String holding "hello"): the OLD `Type_Show` is `return format_to(output, pos, "%s", name)`, so after `[Int` was written at
+    5…8 the position becomes 3, the closing `]` lands at index 3, the String is `hel]` and 4 is returned — not
+    `hello[Int]` / 10; with the code as it is now the String is `hello[Int]`, 10 is returned, and a File gets the same
+    text.  (`showOld` = `showNow` with the OLD `Type_Show`.) -/
+theorem C14_type_show_old_refuted :
+    let fmt := ['[', '%', '$', ']']
+    let old := printTo cfgNow primTest showOld 4 fmt [.type ['I', 'n', 't']] ⟨.str "hello".toList, 5, []⟩
+    let now := printTo cfgNow primTest showNow 4 fmt [.type ['I', 'n', 't']] ⟨.str "hello".toList, 5, []⟩
+    let nowF := printTo cfgNow primTest showNow 4 fmt [.type ['I', 'n', 't']] ⟨.file "hello".toList, 5, []⟩
+    old.oc = .ok ∧ old.out.pos = 4 ∧ old.out.sink = .str "hel]".toList ∧
+    5 + (textOf primTest old.out.calls).length = 10 ∧ showOld.typeOff = true ∧
+    now.oc = .ok ∧ now.out.pos = 10 ∧ now.out.sink = .str "hello[Int]".toList ∧ now.out.calls = old.out.calls ∧
+    nowF.out.pos = 10 ∧ nowF.out.sink = .file "hello[Int]".toList ∧
+    plainArgs 4 [.type ['I', 'n', 't']] = true ∧ plainArgs 4 [.tuple [.box (.type ['I', 'n', 't'])]] = true := by
   decide
 
 /-- Outside the grammar the bounds do fail: a format that is one incomplete specification (`"%5"`) makes
@@ -513,15 +543,15 @@ example :
   refine ⟨by decide, ?_, by decide, by decide, by decide, by decide, by decide, by decide, by decide, by decide, by decide, by decide⟩
   refine ⟨?_, ?_, ?_, trivial⟩ <;> (intro a ha; simp at ha; subst ha; right; decide)
 
-/-- Non-vacuity of `plainArgs`: nested containers of every modelled kind are plain; the show text of a Table inside a Box
-    inside a Tuple. -/
+/-- Non-vacuity of `plainArgs`: nested containers of every modelled kind are plain, Type objects included; the show text of a
+    Table inside a Box inside a Tuple, a Type object in the middle of a Tuple (the position goes on after it). -/
 example :
     let a := Obj.tuple [.box (.table [(.int 1, .str ['a']), (.int 2, .null)]), .range [0, 2], .slice [.flt 0], .other ['F', 'i', 'l', 'e'],
-      .tree [], .box .null]
+      .type ['T', 'r', 'e', 'e'], .tree [], .box .null]
     let r := printTo cfgNow primTest showNow 6 ['%', '$'] [a] ⟨.file [], 0, []⟩
     plainArgs 6 [a] = true ∧ r.oc = .ok ∧
     r.out.sink = .file ("tuple(<'Box' at 0xp (<'Table' At 0xp {n:\"n\", n:<NULL>}>)>, <'Range' At 0xp [n, n]>, " ++
-      "<'Slice' At 0xp [f]>, <'File' At 0xp>, <'Tree' At 0xp {}>, <'Box' at 0xp (<NULL>)>)").toList := by
+      "<'Slice' At 0xp [f]>, <'File' At 0xp>, Tree, <'Tree' At 0xp {}>, <'Box' at 0xp (<NULL>)>)").toList := by
   decide +kernel
 
 end Cello.Fmt
